@@ -54,6 +54,12 @@ func (s *Service) HandleHeadEvent(event *apiv1.Event) {
 	s.log.Trace().Uint64("slot", uint64(data.Slot)).Msg("Received head event")
 
 	if data.Slot != s.chainTimeService.CurrentSlot() {
+		// The event is not for the current slot, so there is nothing to kick off.  It can
+		// still show that the duty dependent roots of the current epoch have changed.
+		if data.Slot < s.chainTimeService.CurrentSlot() &&
+			s.chainTimeService.SlotToEpoch(data.Slot) == s.chainTimeService.CurrentEpoch() {
+			s.checkEventForReorg(ctx, s.chainTimeService.CurrentEpoch(), data.Slot, data.PreviousDutyDependentRoot, data.CurrentDutyDependentRoot)
+		}
 		return
 	}
 
